@@ -177,6 +177,8 @@ def loop_range(loop, subst=None):
     """(variable text, lo Lin, hi Lin exclusive) for the recognised counting idioms, else None:
          for(i = A; i < B; i++)   -> [A, B)        for(i = A; i <= B; i++) -> [A, B+1)
          for(i = N; i--;)         -> [0, N)        (kalign's reverse idiom)"""
+    if loop.k == "WhileStmt":
+        return _while_range(loop, subst)
     if loop.k != "ForStmt":
         return None
     init, cond, inc = loop.child("init"), loop.child("cond"), loop.child("inc")
@@ -203,6 +205,13 @@ def loop_range(loop, subst=None):
     if inc is None:
         return None
     i1 = inc.strip()
+    if i1.k == "UnaryOperator" and i1.d["op"] == "--" and i1.kids[0].strip().text() == var and \
+            c.k == "BinaryOperator" and c.d["op"] in (">=", ">") and c.kids[0].strip(casts=True).text() == var:
+        # for(i = N; i >= L; i--) visits [L, N+1);  for(i = N; i > L; i--) visits [L+1, N+1)
+        lo = lin(c.kids[1], subst)
+        if lo is None:
+            return None
+        return var, lo if c.d["op"] == ">=" else lo.add(Lin(1)), start.add(Lin(1))
     if not (i1.k == "UnaryOperator" and i1.d["op"] == "++" and i1.kids[0].strip().text() == var):
         return None
     if c.k == "BinaryOperator" and c.d["op"] in ("<", "<=") and c.kids[0].strip(casts=True).text() == var:
@@ -211,3 +220,54 @@ def loop_range(loop, subst=None):
             return None
         return var, start, hi if c.d["op"] == "<" else hi.add(Lin(1))
     return None
+
+
+def _while_range(loop, subst=None):
+    """while(i < B) { ...; i++; } with `i = A` as the nearest preceding definition in the enclosing block, the increment as the
+    last statement of the body and no other change of i / no continue in the body -> [A, B) (or [A, B+1) for <=)"""
+    cond, body = loop.child("cond"), loop.child("body")
+    if cond is None or body is None or body.k != "CompoundStmt" or not body.kids:
+        return None
+    c = cond.strip(casts=True)
+    if not (c.k == "BinaryOperator" and c.d["op"] in ("<", "<=") and c.kids[0].strip(casts=True).k == "DeclRefExpr"):
+        return None
+    v = c.kids[0].strip(casts=True)
+    var, did = v.d["name"], v.d["did"]
+    last = body.kids[-1].strip()
+    inc_ok = (last.k == "UnaryOperator" and last.d["op"] == "++" and last.kids[0].strip().k == "DeclRefExpr" and last.kids[0].strip().d["did"] == did) or \
+             (last.k == "CompoundAssignOperator" and last.d["op"] == "+=" and last.kids[0].strip().k == "DeclRefExpr"
+              and last.kids[0].strip().d["did"] == did and last.kids[1].strip(casts=True).cv == 1)
+    if not inc_ok:
+        return None
+    for x in body.walk():
+        if x.k == "ContinueStmt":
+            return None
+        if x is not last and x.k in ("BinaryOperator", "CompoundAssignOperator", "UnaryOperator") and \
+                (x.d.get("op") in ("=", "++", "--") or x.k == "CompoundAssignOperator"):
+            t = x.kids[0].strip()
+            if t.k == "DeclRefExpr" and t.d.get("did") == did and not x.within(last):
+                return None
+    parent = loop.parent
+    if parent is None or parent.k != "CompoundStmt":
+        return None
+    start = None
+    for st in parent.kids:
+        if st is loop:
+            break
+        if st.k == "DeclStmt":
+            for kid in st.kids:
+                if kid.role == "declinit" and kid.decl.get("did") == did:
+                    start = lin(kid, subst)
+        elif st.k == "BinaryOperator" and st.d["op"] == "=" and st.kids[0].strip().k == "DeclRefExpr" and st.kids[0].strip().d["did"] == did:
+            start = lin(st.kids[1], subst)
+        elif any(r.d.get("did") == did and r.parent is not None for r in st.find("DeclRefExpr")) and st.k not in ("DeclStmt",):
+            # some other statement mentions the counter between its definition and the loop: only reads are harmless
+            for x in st.walk():
+                if x.k in ("UnaryOperator", "CompoundAssignOperator") and x.kids and x.kids[0].strip().k == "DeclRefExpr" and x.kids[0].strip().d.get("did") == did:
+                    start = None
+    if start is None:
+        return None
+    hi = lin(c.kids[1], subst)
+    if hi is None:
+        return None
+    return var, start, hi if c.d["op"] == "<" else hi.add(Lin(1))
